@@ -83,12 +83,15 @@ func (r *faultyReaderAt) ReadAt(p []byte, off int64) (int, error) {
 	return bytes.NewReader(r.data).ReadAt(p, off)
 }
 
+// c14Tmp: scratch directory of the file-backed page buffers (removed when the run ends).
+var c14Tmp string
+
 func c14Options(sc *c14Scenario, r *rng) []parquet.WriterOption {
 	opts := wOptions(sc.Cfg, r)
 	if sc.Bloom {
 		opts = append(opts, parquet.BloomFilters(parquet.SplitBlockFilter(10, "id"), parquet.SplitBlockFilter(10, "s")),
 			parquet.DeferBloomFiltersWithBuffers(parquet.NewBufferPool()),
-			parquet.ColumnPageBuffers(parquet.NewFileBufferPool("", "vh-c14-*")))
+			parquet.ColumnPageBuffers(parquet.NewFileBufferPool(c14Tmp, "vh-c14-*")))
 	}
 	return opts
 }
@@ -184,6 +187,10 @@ func c14Main(args []string) error {
 	}
 	tr := newTracer(os.Stdout)
 	defer tr.flush()
+	if c14Tmp, err = os.MkdirTemp("", "vh-c14-"); err != nil {
+		return err
+	}
+	defer os.RemoveAll(c14Tmp)
 	for si := range scs {
 		sc := &scs[si]
 		rid := sc.ID
